@@ -212,6 +212,9 @@ func (c *Child) Run(cs *core.Case, timeout time.Duration) core.Verdict {
 			c.kill()
 			return core.Verdict{Status: "infra", Detail: "bad verdict json: " + err.Error()}
 		}
+		if v.Restart {
+			c.kill()
+		}
 		return v
 	case <-time.After(timeout):
 		// Dump goroutines, then kill.
